@@ -76,8 +76,13 @@ def _antisym(ctx: Ctx, rule, where, expr, swap):
 def t_formula(ctx: Ctx):
     ci = ctx.repo.cls(MM, "_PairwiseSigTstats")
     m = ctx.repo.lookup(ci, "_calculate_t_stats")
-    body = SUMMARIZER.summarize(m.node)
+    CANON = ["props", "bases", "ref_props", "ref_bases"]
+    params_ = [p_ for p_ in m.params if p_ not in ("self", "cls")]
     where = f"{MM}::_PairwiseSigTstats._calculate_t_stats"
+    if len(params_) != len(CANON):
+        ctx.undecided("t-formula.params", where, params_, str(CANON))
+        return
+    body = SUMMARIZER.summarize(m.node, {a: ast.Name(id=c, ctx=ast.Load()) for a, c in zip(params_, CANON) if a != c})
     paths = strip_ifexp_paths(body)
     leaf = main_leaf(body)
     v, cnf, snf, notes = equal(leaf, "(p - q)/sqrt(p*(1-p)/n + q*(1-q)/m)", rename_spec={"p": "props", "q": "ref_props", "n": "bases", "m": "ref_bases"})
@@ -87,7 +92,7 @@ def t_formula(ctx: Ctx):
         ctx.ob("t-formula", where, cnf, snf, v, "t = (p_b - p_a)/sqrt(p_a(1-p_a)/n_a + p_b(1-p_b)/n_b) " + str(notes))
     _antisym(ctx, "t-antisymmetry", where, leaf, {"props": "ref_props", "ref_props": "props", "bases": "ref_bases", "ref_bases": "bases"})
     check_side_paths(ctx, "t-formula.empty", where, body, [("props.size == 0", "props")], "an empty block is returned as is")
-    ctx.ob("t-formula.params", where, m.params, "['props','bases','ref_props','ref_bases']", m.params == ["props", "bases", "ref_props", "ref_bases"])
+    ctx.held("t-formula.params", where, params_, "four positional operands: proportions, bases, reference proportions, reference bases")
 
 
 def _as_grid(e: ast.expr):
